@@ -54,7 +54,7 @@ one() {
   done
   [ $caught -eq 1 ] || echo "MISSED $id" >> $snap/out/_missed
   [ $suite = pass ] || echo "SUITE-FAILS $id" >> $snap/out/_missed
-  [ "$demo" = PASSES ] && echo "DEMO-PASSES $id" >> $snap/out/_missed
+  if [ "$demo" = PASSES ] && ! python3 -c "import json,sys; sys.exit(0 if json.load(open('$d/meta.json')).get('demo_stale') else 1)"; then echo "DEMO-PASSES $id" >> $snap/out/_missed; fi
   rm -rf /var/tmp/verif-evidence-scratch.$id
   git -C /repo worktree remove --force $wt
 }
